@@ -2,12 +2,12 @@
 from framework.checklib import CorrResult
 from framework import coqrun
 from harness import evalcorr, gen
-from translator import t1_operators
+from translator import t1_operators, t9_circuit_core, t10_circuit_algos
 
 ID = 'C15'
-TRANSLATORS = [t1_operators.translate]
+TRANSLATORS = [t1_operators.translate, t9_circuit_core.translate, t10_circuit_algos.translate]
 PROPERTY_FILE = 'Properties/C15.v'
-THEOREMS = ['C15_operator_monotone', 'C15_semantics_monotone', 'C15_defined_is_stable',
+THEOREMS = ['C15_evaluators_regenerated', 'C15_operator_monotone', 'C15_semantics_monotone', 'C15_defined_is_stable',
             'C15_total_is_defined', 'C15_full_evaluation_reports_semantics',
             'C15_stack_evaluation_reports_semantics',
             'C15_full_evaluation_total', 'C15_stack_evaluation_total',
@@ -88,7 +88,9 @@ def oracle_cases(ctx, corr):
 
 
 def oracle(dump):
-    return evalcorr.oracle_c15(dump)
+    # soundness under total assignments (a special case of the property) also on ONE object that is edited between
+    # evaluations: a reported True / False must be the value of the circuit as it is then
+    return evalcorr.oracle_c15(dump) or evalcorr.oracle_after_edits(dump)
 
 
 def classify(case, msg):
